@@ -53,6 +53,7 @@ void harness(void)
 {
 	sym_load();
 #if defined SIDE_D
+	ENV_INIT();
 	static struct echs_task_s T;
 	static struct _task_s W;
 	ASSUME(in.ms >= 1 && in.ms <= LMAX);
